@@ -149,6 +149,8 @@ def z3sort(ty):
         return T.Bool
     if ty == 'str':
         return T.Str
+    if ty == 'real':
+        return z3.RealSort()
     if isinstance(ty, tuple):
         if ty[0] in ('seq', 'list'):
             return z3.SeqSort(z3sort(ty[1]))
